@@ -5,7 +5,7 @@ from ..common import pool_map, chunks
 from ..projection import project
 from . import docs
 
-SEPS = [b" ", b"\n", b"\r\n", b";", b";\n", b"\x00", b"\n\n"]
+SEPS = [b" ", b"\n", b"\r\n", b";", b";\n", b"\x00", b"\n\n", b"\x01", b"\x7f\xff"]
 
 
 def trailers(rng, thorough):
@@ -116,6 +116,10 @@ def _case(job):
             return pvl.load(f, parser=p)
     run("load_text_stream", text_stream)
     run("load_binary_stream", binary_stream)
+    # the strict grammars too (END glued to a byte their character set does not have must still end the label)
+    from .. import loaders as L
+    run("PVL:load_str_path", lambda p: pvl.load(path, parser=L.make_parser("PVL", **({"lexer_fn": p.lexer} if p else {}))))
+    run("ISIS:load_binary_stream", lambda p: pvl.load(open(path, "rb"), parser=L.make_parser("ISIS", **({"lexer_fn": p.lexer} if p else {}))))
     if whole_decodable:
         run("loads_str", lambda p: pvl.loads(data.decode("utf-8"), parser=p))
         run("loads_bytes", lambda p: pvl.loads(data, parser=p))
@@ -171,7 +175,9 @@ def run(ctx, rep):
               and "set>seq" not in loaders.features(loaders.from_tla(c["tree"]))]     # (finding F-C03-set-of-sequence)
     step = max(1, len(labels) // (400 if ctx.thorough else 40))
     labels = labels[::step]
-    labels += ["a = \"café °\"\nb = 2\nEND", "kéy = 1\nEND", "x = (1, 2)\nEND"]
+    labels += ["a = \"café °\"\nb = 2\nEND", "kéy = 1\nEND", "x = (1, 2)\nEND",
+               "a = \"first line\nEND\nlast line\"\nb = 2\nEND", "/* a comment\nEND\nstill the comment */\na = 1\nEND",
+               "a = 'x'\n  END  \nb = 'never read'\nEND"]
     trs = trailers(ctx.rng, ctx.thorough)
     tmpdir = tempfile.mkdtemp(prefix="pvlverif-c09-")
     try:
@@ -229,8 +235,8 @@ def run(ctx, rep):
             if ev["ev"] == "dump":
                 fails = list(v["fails"])
             else:
-                ref = loaders.ref_outcome(v["o"])
                 for en, r in ev["results"].items():
+                    ref = loaders.ref_outcome(v["strict"][en.split(":")[0]]) if ":" in en else loaders.ref_outcome(v["o"])
                     if ev["after"].get(en, 0) != 0:
                         fails.append(en + ":tokens-requested-after-END")
                     if ref["verdict"] == "accept":
